@@ -1,137 +1,11 @@
 /-
-C20 — definitions used by the statements: the decidable predicate `AvoidsKnownHoles` (a purely
-syntactic, role-directed description of documents that stay away from every place where the
-validation layer performs no check) and the shape invariant `WF` of accepted recipes.
+C20 — definitions used by the statements: the shape invariant `WF` of accepted recipes.
+(The predicate `AvoidsKnownHoles` of the first version is gone: the holes it described have been
+repaired in the code, and `parse_never_stuck` holds for every document.)
 -/
 import SnowModel.Core.ParseCheck
 
 namespace SnowModel.ParseCheck
-
-/-! ### documents that avoid the known holes -/
-
-def isScalar : Y → Bool
-  | .list _ => false
-  | .map _ => false
-  | _ => true
-
-/-- the key of a keyword argument that `_coerce_to_string` turns into `"to"` -/
-def keyIsTo (k : Y) : Bool :=
-  match coerceKey k with
-  | .ok s _ => s == "to"
-  | _ => false
-
-/-- the argument of a `random_reference` names its target by a plain scalar: a scalar, a non-empty
-    list that starts with a scalar, or a mapping with a `to` entry whose value is a scalar
-    (avoids `refNoArgs`, `refNoTo`, `refNotSimple`) -/
-def refArgsOk : Y → Bool
-  | .map kvs => kvs.any (fun p => keyIsTo p.1) && kvs.all (fun p => !keyIsTo p.1 || isScalar p.2)
-  | .list (x :: _) => isScalar x
-  | .list [] => false
-  | _ => true
-
-mutual
-
-/-- a value in field-value position (avoids `fieldValueShape`) -/
-def okFV : Y → Bool
-  | .list [.map kvs] => if getTruthy kvs "object" then okNode kvs else okStruct kvs
-  | .list _ => false
-  | .map kvs => if getTruthy kvs "object" then okNode kvs else okStruct kvs
-  | _ => true
-
-/-- a mapping read as a function call: the function name is a string with at most one dot
-    (avoids `funcNameNotStr`, `funcNameDots`) and the arguments are fine -/
-def okStruct : KVs → Bool
-  | [] => true
-  | (k, a) :: rest =>
-    (match k with
-      | .str fn => decide (countDots fn < 2) &&
-          (fn != "random_reference" || refArgsOk (if rest.isEmpty then a else .map rest))
-      | _ => false)
-    && (if rest.isEmpty then okArgs a else okVals rest)
-
-def okArgs : Y → Bool
-  | .map kvs => okVals kvs
-  | .list xs => okFVs xs
-  | _ => true
-
-def okVals : KVs → Bool
-  | [] => true
-  | (_, v) :: rest => okFV v && okVals rest
-
-def okFVs : List Y → Bool
-  | [] => true
-  | x :: xs => okFV x && okFVs xs
-
-/-- a `fields` mapping: every name is a non-empty string (avoids `fieldNameFalsy`, `fieldNameNotStr`) -/
-def okFields : KVs → Bool
-  | [] => true
-  | (k, v) :: rest => k.truthy && k.isStr && okFV v && okFields rest
-
-/-- a statement list (`friends`): every item is a mapping (avoids `friendNotMap`) that is a template,
-    a variable or has only string keys (avoids `stmtKeyNotStr`) -/
-def okStmts : List Y → Bool
-  | [] => true
-  | .map kvs :: rest =>
-    (getTruthy kvs "object" || getTruthy kvs "var" || kvs.all (fun p => p.1.isStr))
-      && okNode kvs && okStmts rest
-  | _ :: _ => false
-
-/-- a mapping read as a template, a variable definition, a macro or a `for_each` block -/
-def okNode : KVs → Bool
-  | [] => true
-  | (k, v) :: rest =>
-    (if keyStr k == "fields" then okFieldsY v
-     else if keyStr k == "friends" then okStmtsY v
-     else if keyStr k == "for_each" then okForEachY v
-     else if keyStr k == "count" || keyStr k == "value" then okFV v
-     else true) && okNode rest
-
-def okFieldsY : Y → Bool
-  | .map f => okFields f
-  | _ => true
-
-def okStmtsY : Y → Bool
-  | .list xs => okStmts xs
-  | _ => true
-
-/-- a `for_each` block names its variable (avoids `forEachNoVar`) -/
-def okForEachY : Y → Bool
-  | .map f => (lookup f "var").isSome && okNode f
-  | _ => true
-
-end
-
-/-- a top-level element: besides `okNode`, macro and option names are hashable (avoids
-    `macroUnhashable`, `optionUnhashable`), a plugin name is a dotted string (avoids `pluginNotStr`,
-    `pluginNoDot`), an include path is relative (avoids `includeAbs`) -/
-def okTopElem : Y → Bool
-  | .map kvs =>
-    okNode kvs
-    && (match lookup kvs "macro" with
-        | some v => v.hashable
-        | none => true)
-    && (match lookup kvs "option" with
-        | some v => v.hashable
-        | none => true)
-    && (match lookup kvs "plugin" with
-        | some (.str s) => s == "" || countDots s != 0
-        | some v => !v.truthy
-        | none => true)
-    && (match lookup kvs "include_file" with
-        | some (.str s) => !startsWithSlash s
-        | _ => true)
-  | _ => true
-
-def okDoc : Y → Bool
-  | .list es => es.all okTopElem
-  | _ => true
-
-/-- the recipe and every file it can include avoid the known holes -/
-def AvoidsKnownHoles (env : Env) (doc : Y) : Bool :=
-  okDoc doc && env.files.all (fun p =>
-    match p.2 with
-    | .doc d => okDoc d
-    | .yamlError => true)
 
 /-! ### the shape invariant of an accepted recipe -/
 
